@@ -1,4 +1,4 @@
-* thorough tier: 2 keys, values {absent,1,2}, 3 batches, 2 clients x 3 ops (about 7 min with 4 workers)
+\* thorough tier: 2 keys, values {absent,1,2}, 3 batches, 2 clients x 3 ops (about 7 min with 4 workers)
 SPECIFICATION Spec
 CONSTANTS
   Keys = {k1, k2}
